@@ -16,6 +16,7 @@ import (
 	"strconv"
 	"strings"
 	"sync"
+	"sync/atomic"
 	"syscall"
 	"time"
 
@@ -54,13 +55,14 @@ type override struct {
 	// not read at all for 400 ms, then reads everything), "dialpanic" (fault injection: the StreamDialer given to
 	// SetTargetDialer panics when connection 1 is dialled)
 	Craft string `json:"craft"`
-	// DataSize forces the payload size of every data token (large uploads)
-	DataSize int `json:"datasize"`
+	// DataSize / TDataSize force the payload size of every client data token / target chunk (large transfers)
+	DataSize  int `json:"datasize"`
+	TDataSize int `json:"tdatasize"`
 	// the service has NO keys (key-list size 0): every opener fails authentication
 	EmptyKeys bool `json:"emptykeys"`
 }
 
-var envActs = map[string]bool{"TClose": true, "CRst": true, "Connect": true, "CSend": true, "CFin": true, "TSend": true, "TFin": true, "TRst": true, "Tick": true, "CloseListener": true}
+var envActs = map[string]bool{"TPause": true, "TResume": true, "CPause": true, "CResume": true, "TClose": true, "CRst": true, "Connect": true, "CSend": true, "CFin": true, "TSend": true, "TFin": true, "TRst": true, "Tick": true, "CloseListener": true}
 var obsActs = map[string]bool{"Open": true, "MAuth": true, "MProbe": true, "MClosed": true, "Dial": true, "TRecv": true, "TSawFin": true,
 	"CRecv": true, "CSawFin": true, "CClose": true, "ServeReturn": true}
 
@@ -211,12 +213,18 @@ type cconn struct {
 	cancelled                                 bool
 	slow                                      bool
 	pause                                     bool
-	tcl                                       string
-	ndataSent                                 int
-	crst                                      bool
-	wcpl                                      int64
-	afterClose                                int
-	refuseFd                                  int
+	// back-pressure scenarios (TPause/TResume/CPause/CResume in the behaviour): the readers stop reading while paused, all socket
+	// buffers on the way are small, and the peers' writes are performed by their own goroutines (a write may block for long)
+	async            bool
+	tpaused, cpaused atomic.Bool
+	cjobs, tjobs     chan func()
+	jobsWG           sync.WaitGroup
+	tcl              string
+	ndataSent        int
+	crst             bool
+	wcpl             int64
+	afterClose       int
+	refuseFd         int
 }
 
 type mapDialer struct {
@@ -255,6 +263,9 @@ func (d *mapDialer) DialStream(ctx context.Context, addr string) (transport.Stre
 	if err != nil {
 		d.b.update(cc.plan.C, func(o *connObs) { o.dials++; o.dialAddrs = append(o.dialAddrs, addr, "error: "+err.Error()) })
 		return nil, err
+	}
+	if cc.async {
+		conn.(*net.TCPConn).SetWriteBuffer(smallBuf)
 	}
 	d.b.update(cc.plan.C, func(o *connObs) { o.dials++; o.dialAddrs = append(o.dialAddrs, addr) })
 	return conn.(*net.TCPConn), nil
@@ -337,6 +348,12 @@ func refusingPort() (string, int) {
 func runBehaviour(idx int, beh behaviour, opt options) ([]*caseRec, *behRec) {
 	start := time.Now()
 	rng := rand.New(rand.NewSource(opt.seed*1000003 + int64(idx)))
+	hasPause := false
+	for _, e := range beh.Tr {
+		if e.A == "TPause" || e.A == "CPause" {
+			hasPause = true
+		}
+	}
 	nk, keys, klist, replayOn := setupKeys(rng, idx, beh, opt)
 	ciphers := service.NewCipherList()
 	ciphers.Update(klist)
@@ -374,6 +391,9 @@ func runBehaviour(idx int, beh behaviour, opt options) ([]*caseRec, *behRec) {
 			b.mu.Lock()
 			b.accepted++
 			b.mu.Unlock()
+			if hasPause {
+				c.SetWriteBuffer(smallBuf)
+			}
 			return c, nil
 		}, func(ctx context.Context, conn transport.StreamConn) {
 			port := conn.RemoteAddr().(*net.TCPAddr).Port
@@ -484,13 +504,26 @@ func runBehaviour(idx int, beh behaviour, opt options) ([]*caseRec, *behRec) {
 		cc := &cconn{cfinAt: -1, preDoneAt: -1, lastSendAt: -1, addrDoneAt: -1, stallKinds: []string{}, tcl: "no"}
 		cc.plan = buildPlan(rng, c, sc.Hs, sc.Tk, keys[pos], kinds[c], ntgt[c], req, atyp, beh.Ov, func(p *connPlan) { primes = append(primes, p) })
 		cc.plan.KeyPos = pos
+		cc.async = hasPause
+		if hasPause {
+			cc.startJobs()
+		}
 		cc.slow = beh.Ov != nil && beh.Ov.Craft == "slow"
 		cc.pause = beh.Ov != nil && beh.Ov.Craft == "pause"
 		switch sc.Tk {
 		case "ok":
-			cc.tln, err = net.ListenTCP("tcp", &net.TCPAddr{IP: net.IPv4(127, 0, 0, 1)})
-			if err != nil {
-				panic(err)
+			if hasPause {
+				lc := net.ListenConfig{Control: smallRcvBuf}
+				l, lerr := lc.Listen(context.Background(), "tcp", "127.0.0.1:0")
+				if lerr != nil {
+					panic(lerr)
+				}
+				cc.tln = l.(*net.TCPListener)
+			} else {
+				cc.tln, err = net.ListenTCP("tcp", &net.TCPAddr{IP: net.IPv4(127, 0, 0, 1)})
+				if err != nil {
+					panic(err)
+				}
 			}
 			go targetAccept(b, cc)
 		case "refuse":
@@ -619,8 +652,14 @@ func runBehaviour(idx int, beh behaviour, opt options) ([]*caseRec, *behRec) {
 			if stalled[pe.C] {
 				w = 0 // what follows a missing observation of the same connection is not waited for again
 			}
-			if x := conns[pe.C]; x != nil && x.pause && (pe.A == "TRecv" || pe.A == "TSawFin") {
+			if x := conns[pe.C]; x != nil && (x.pause || x.tpaused.Load()) && (pe.A == "TRecv" || pe.A == "TSawFin") {
 				continue // the target itself is not reading yet
+			}
+			if x := conns[pe.C]; x != nil && x.cpaused.Load() && (pe.A == "CRecv" || pe.A == "CSawFin" || pe.A == "CClose") {
+				continue // the client itself is not reading
+			}
+			if x := conns[pe.C]; x != nil && x.async && (x.cpaused.Load() || x.tpaused.Load()) {
+				continue // a blocked direction also holds up what follows it (reports, closes)
 			}
 			if !b.wait(w, obsHolds(pe)) {
 				stalled[pe.C] = true
@@ -655,7 +694,17 @@ func runBehaviour(idx int, beh behaviour, opt options) ([]*caseRec, *behRec) {
 				time.Sleep(d)
 			}
 		case "Connect":
-			conn, err := net.DialTCP("tcp", nil, ln.Addr().(*net.TCPAddr))
+			var conn *net.TCPConn
+			var err error
+			if hasPause {
+				var gc net.Conn
+				gc, err = (&net.Dialer{Control: smallRcvBuf}).Dial("tcp", ln.Addr().String())
+				if err == nil {
+					conn = gc.(*net.TCPConn)
+				}
+			} else {
+				conn, err = net.DialTCP("tcp", nil, ln.Addr().(*net.TCPAddr))
+			}
 			if err != nil {
 				cc.rec.Stalls = append(cc.rec.Stalls, "connect failed: "+err.Error())
 				continue
@@ -685,11 +734,17 @@ func runBehaviour(idx int, beh behaviour, opt options) ([]*caseRec, *behRec) {
 				cc.wcpl += int64(len(cc.plan.Payloads[cc.ndataSent]))
 				cc.ndataSent++
 			}
-			n, err := cc.conn.Write(t.Bytes)
-			if err != nil {
-				cc.rec.WriteErrs++
-			}
-			cc.sentBytes += n
+			tb, cconn2, cid := t.Bytes, cc.conn, e.C
+			cc.cdo(func() {
+				n, err := cconn2.Write(tb)
+				b.update(cid, func(o *connObs) {
+					o.wireCS += int64(n)
+					if err != nil {
+						o.writeErrs++
+					}
+				})
+			})
+			cc.sentBytes += len(t.Bytes)
 			now := b.ms()
 			cc.lastSendAt = now
 			if cc.preDoneAt < 0 && cc.sentBytes >= 50 {
@@ -701,7 +756,6 @@ func runBehaviour(idx int, beh behaviour, opt options) ([]*caseRec, *behRec) {
 			if t.Kind == kBad || t.Kind == kBadAddr {
 				cc.hasBadSent = true
 			}
-			b.update(e.C, func(o *connObs) { o.wireCS += int64(n) })
 			cc.rec.Csent = append(cc.rec.Csent, tokOut{K: kindNames[t.Kind], V: t.V, N: len(t.Bytes), Note: t.Note})
 		case "CFin":
 			if cc.conn == nil {
@@ -709,7 +763,16 @@ func runBehaviour(idx int, beh behaviour, opt options) ([]*caseRec, *behRec) {
 			}
 			cc.cfin = true
 			cc.cfinAt = b.ms()
-			cc.conn.CloseWrite()
+			cw := cc.conn
+			cc.cdo(func() { cw.CloseWrite() })
+		case "TPause":
+			cc.tpaused.Store(true)
+		case "TResume":
+			cc.tpaused.Store(false)
+		case "CPause":
+			cc.cpaused.Store(true)
+		case "CResume":
+			cc.cpaused.Store(false)
 		case "TSend":
 			if !b.wait(await, func() bool { return cc.tconn != nil }) {
 				cc.rec.Stalls = append(cc.rec.Stalls, "target never accepted")
@@ -717,8 +780,11 @@ func runBehaviour(idx int, beh behaviour, opt options) ([]*caseRec, *behRec) {
 			}
 			pl := cc.plan.TPayloads[cc.ntsent]
 			cc.ntsent++
-			n, _ := cc.tconn.Write(pl)
-			b.update(e.C, func(o *connObs) { o.wireTS += int64(n) })
+			tw, cid := cc.tconn, e.C
+			cc.tdo(func() {
+				n, _ := tw.Write(pl)
+				b.update(cid, func(o *connObs) { o.wireTS += int64(n) })
+			})
 		case "TFin":
 			if !b.wait(await, func() bool { return cc.tconn != nil }) {
 				continue
@@ -727,7 +793,8 @@ func runBehaviour(idx int, beh behaviour, opt options) ([]*caseRec, *behRec) {
 			b.mu.Lock()
 			cc.tfinPolite = has(b.get(e.C).tlog, 0)
 			b.mu.Unlock()
-			cc.tconn.CloseWrite()
+			tw := cc.tconn
+			cc.tdo(func() { tw.CloseWrite() })
 		case "TRst":
 			if !b.wait(await, func() bool { return cc.tconn != nil }) {
 				continue
@@ -783,6 +850,20 @@ func runBehaviour(idx int, beh behaviour, opt options) ([]*caseRec, *behRec) {
 	}
 
 	// ---- the behaviour is over: everything must come to rest ----
+	for c := 1; c <= nconn; c++ {
+		if cc := conns[c]; cc.async { // every receiver eventually reads again; every queued write completes
+			cc.tpaused.Store(false)
+			cc.cpaused.Store(false)
+			jobs := make(chan struct{})
+			go func(cc *cconn) { close(cc.cjobs); close(cc.tjobs); cc.jobsWG.Wait(); close(jobs) }(cc)
+			select {
+			case <-jobs:
+			case <-time.After(15 * time.Second):
+				cc.rec.Stalls = append(cc.rec.Stalls, "queued writes did not complete")
+			}
+			cc.cjobs, cc.tjobs = nil, nil
+		}
+	}
 	hang := time.Duration(opt.hangMs) * time.Millisecond
 	for c := 1; c <= nconn; c++ {
 		cc := conns[c]
@@ -871,6 +952,7 @@ func runBehaviour(idx int, beh behaviour, opt options) ([]*caseRec, *behRec) {
 		r.Mlog = append(r.Mlog, o.mlog...)
 		r.Dials = o.dials
 		r.Handled = o.handled
+		r.WriteErrs += o.writeErrs
 		if beh.Ov != nil && beh.Ov.EmptyKeys {
 			r.NKeys = 0
 		}
@@ -894,6 +976,41 @@ func runBehaviour(idx int, beh behaviour, opt options) ([]*caseRec, *behRec) {
 	b.mu.Unlock()
 	br.WallMs = time.Since(start).Milliseconds()
 	return out, br
+}
+
+func (cc *cconn) cdo(f func()) {
+	if cc.async && cc.cjobs != nil {
+		cc.cjobs <- f
+		return
+	}
+	f()
+}
+
+func (cc *cconn) tdo(f func()) {
+	if cc.async && cc.tjobs != nil {
+		cc.tjobs <- f
+		return
+	}
+	f()
+}
+
+func (cc *cconn) startJobs() {
+	cc.cjobs, cc.tjobs = make(chan func(), 256), make(chan func(), 256)
+	for _, ch := range []chan func(){cc.cjobs, cc.tjobs} {
+		cc.jobsWG.Add(1)
+		go func(ch chan func()) {
+			defer cc.jobsWG.Done()
+			for f := range ch {
+				f()
+			}
+		}(ch)
+	}
+}
+
+const smallBuf = 16 << 10
+
+func smallRcvBuf(network, address string, c syscall.RawConn) error {
+	return c.Control(func(fd uintptr) { syscall.SetsockoptInt(int(fd), syscall.SOL_SOCKET, syscall.SO_RCVBUF, smallBuf) })
 }
 
 // addStep appends the environment action to the connection's script (before it is performed)
@@ -935,6 +1052,9 @@ func targetAccept(b *board, cc *cconn) {
 		if cc.slow {
 			time.Sleep(2 * time.Millisecond)
 		}
+		for cc.tpaused.Load() {
+			time.Sleep(5 * time.Millisecond)
+		}
 		n, err := conn.Read(buf)
 		if n > 0 {
 			b.update(c, func(o *connObs) { o.wireTR += int64(n) })
@@ -960,6 +1080,9 @@ func clientRead(b *board, cc *cconn) {
 	ch := newChopper(cc.plan.TPayloads, func(id int) { b.update(c, func(o *connObs) { o.clog = append(o.clog, id) }) })
 	buf := make([]byte, 32768)
 	for {
+		for cc.cpaused.Load() {
+			time.Sleep(5 * time.Millisecond)
+		}
 		n, err := ssr.Read(buf)
 		if n > 0 {
 			ch.feed(buf[:n])
